@@ -554,7 +554,9 @@ impl Grid {
 
         let bin_lo_rt = bin_lo as f32 * self.rt_step + self.rt_min;
         // what fraction [0.0, 1.0] of the way are we to the higher bin?
-        let interp = (spectrum_rt - bin_lo_rt) / self.rt_step;
+        // (rounding can push the quotient just outside the interval, which would add a
+        // slightly negative intensity to one of the two bins)
+        let interp = ((spectrum_rt - bin_lo_rt) / self.rt_step).clamp(0.0, 1.0);
 
         self.matrix[(file_id * N_ISOTOPES + isotope, bin_lo)] +=
             ((1.0 - interp) * intensity) as f64;
